@@ -27,7 +27,7 @@ AddTrait(n, cp, e) == /\ pc = "author" /\ Len(in.traits) < MaxTraits /\ in.rms =
                       /\ in' = [in EXCEPT !.traits = Append(@, [n |-> n, cp |-> cp, err |-> e, hint |-> "-"])]
                       /\ UNCHANGED <<pc, ti, traits, mi, fctx, merged, errors, pending, impls>>
 AddMember(o, r, st, sk) == /\ pc = "author" /\ Len(in.rms) < MaxMembers
-                           /\ in' = [in EXCEPT !.rms = Append(@, [own |-> o, rep |-> r, stop |-> st, skip |-> sk]),
+                           /\ in' = [in EXCEPT !.rms = Append(@, [own |-> o, rep |-> r, cats |-> {}, stop |-> st, skip |-> sk]),
                                                !.ms = Append(@, <<>>)]
                            /\ UNCHANGED <<pc, ti, traits, mi, fctx, merged, errors, pending, impls>>
 Seal == pc = "author" /\ pc' = "parse_type" /\ UNCHANGED <<in, ti, traits, mi, fctx, merged, errors, pending, impls>>
@@ -44,7 +44,7 @@ ParseMember ==
   /\ pc = "parse_members" /\ mi <= Len(in.rms)
   /\ LET m == in.rms[mi]
          c1 == IF m.stop THEN 0 ELSE fctx IN
-     IF m.rep # "-"
+     IF m.rep
      THEN IF c1 # 0 /\ ~m.stop
           THEN IF RepeatConflictIsError
                THEN /\ errors' = Append(errors, [c |-> "repeat_conflict", a |-> "s" \o ToString(mi)]) /\ pc' = "rejected"
@@ -53,7 +53,7 @@ ParseMember ==
           ELSE /\ fctx' = mi /\ merged' = Append(merged, OwnInstrs(in.rms, mi)) /\ mi' = mi + 1 /\ UNCHANGED <<pc, errors>>
      ELSE /\ fctx' = c1 /\ mi' = mi + 1 /\ UNCHANGED <<pc, errors>>
           /\ merged' = Append(merged, IF c1 # 0 /\ ~m.skip
-                                      THEN OwnInstrs(in.rms, mi) \cup {<<c, c1>> : c \in (in.rms[c1].own \cap RepCats(in.rms[c1].rep))}
+                                      THEN OwnInstrs(in.rms, mi) \cup {<<c, c1>> : c \in (in.rms[c1].own \cap RepCats(in.rms[c1]))}
                                       ELSE OwnInstrs(in.rms, mi))
   /\ UNCHANGED <<in, ti, traits, pending, impls>>
 EndParseMembers == pc = "parse_members" /\ mi > Len(in.rms) /\ pc' = "validate"
@@ -75,7 +75,7 @@ EmitImpl(d) == /\ pc = "expand" /\ d \in pending
 Finish == pc = "expand" /\ pending = {} /\ pc' = "done" /\ UNCHANGED <<in, ti, traits, mi, fctx, merged, errors, pending, impls>>
 
 Next == \/ \E n \in TNames, cp \in {"A", "B"}, e \in {"-", "E1"} : AddTrait(n, cp, e)
-        \/ \E o \in SUBSET Cats, r \in {"-", "all"}, st \in BOOLEAN, sk \in BOOLEAN : AddMember(o, r, st, sk)
+        \/ \E o \in SUBSET {"map", "child"}, r \in BOOLEAN, st \in BOOLEAN, sk \in BOOLEAN : AddMember(o, r, st, sk)
         \/ Seal \/ ParseTypeAttr \/ EndParseType \/ ParseMember \/ EndParseMembers \/ Validate
         \/ (\E d \in pending : EmitImpl(d)) \/ Finish
 System == ParseTypeAttr \/ EndParseType \/ ParseMember \/ EndParseMembers \/ Validate \/ (\E d \in pending : EmitImpl(d)) \/ Finish
